@@ -14,7 +14,9 @@ open Noulith
 
 /-- the values that occur in the differential run.  `stream` is a finite lazy sequence (given by
 its elements), `dkeys` a dictionary seen through iteration (its keys in iteration order), `dict` a
-dictionary *result* (keys, values, optional default; printed sorted by key). -/
+dictionary *result* (keys, values, optional default; printed sorted by key).  `wrapped items pos`
+is `stream(seq)`, core.rs `WrappedVec(items, pos)`: a stream over a materialised sequence with a
+read position (elements before `pos` have been consumed by `next` / `drop` / `tail` / uncons). -/
 inductive Val where
   | null
   | int (i : Int)
@@ -23,6 +25,7 @@ inductive Val where
   | bytes (bs : List Nat)
   | vec (ns : List Int)
   | stream (xs : List Val)
+  | wrapped (items : List Val) (pos : Nat)
   | dkeys (ks : List Val)
   | dict (ks : List Val) (vs : List Val) (dflt : List Val)
   deriving Inhabited
@@ -90,6 +93,18 @@ def ncmp (a b : Val) : Out Ordering :=
     | some o => .ok o
     | none => .throw
 
+/-- `WrappedVec::next` repeated until `None` (core.rs:443): what iteration (`clone_box` + `next`)
+sees of a positioned stream; `fuel` = number of elements left -/
+def wIterGo (items : List Val) : Nat → Nat → List Val
+  | 0, _ => []
+  | fuel + 1, pos =>
+    match items[pos]? with
+    | some x => x :: wIterGo items fuel (pos + 1)
+    | none => []
+def wIter (items : List Val) (pos : Nat) : List Val := wIterGo items (items.length - pos) pos
+/-- `WrappedVec::force` (core.rs:479): `self.0[self.1..]` -/
+def wForce (items : List Val) (pos : Nat) : List Val := items.drop pos
+
 /-- `Obj::truthy` (core.rs:1114) -/
 def truthy : Val → Bool
   | null => false
@@ -99,6 +114,7 @@ def truthy : Val → Bool
   | bytes bs => !bs.isEmpty
   | vec ns => !ns.isEmpty
   | stream xs => !xs.isEmpty
+  | wrapped items pos => items.length - pos != 0   -- `WrappedVec::len`
   | dkeys ks => !ks.isEmpty
   | dict ks _ _ => !ks.isEmpty
 
@@ -122,6 +138,7 @@ def render : Val → String
   | bytes bs => "b:" ++ hexOfBytes bs
   | vec ns => "v[" ++ joinWith "," (ns.map toString) ++ "]"
   | stream xs => "stream[" ++ joinWith "," (renderList xs) ++ "]"
+  | wrapped items pos => "stream[" ++ joinWith "," ((renderList items).drop pos) ++ "]"
   | dkeys ks => "d[" ++ joinWith "," (renderList ks) ++ "]"
   | dict ks vs d =>
     let entries := ((renderList ks).zip (renderList vs)).foldr insertEntry []
@@ -188,6 +205,11 @@ def value : Nat → List Char → Option (Val × List Char)
     | 'b' :: ':' :: rest => let (h, r) := spanP isHex rest; (bytesOfHex h).map fun b => (bytes b, r)
     | 'v' :: '[' :: rest => (ints (fuel + 1) rest).map fun (ns, r) => (vec ns, r)
     | 'd' :: '[' :: rest => (values fuel rest).map fun (xs, r) => (dkeys xs, r)
+    | 'w' :: rest =>
+      let (ds, r) := spanP isDigit rest
+      (match r with
+       | '[' :: r' => (values fuel r').map fun (xs, r'') => (wrapped xs (natOf ds), r'')
+       | _ => none)
     | '[' :: rest => (values fuel rest).map fun (xs, r) => (list xs, r)
     | '-' :: rest =>
       let (ds, r) := spanP isDigit rest
@@ -345,6 +367,7 @@ def kind? : Val → Option Kind
   | vec _ => some .vector
   | bytes _ => some .bytes
   | stream _ => some .stream
+  | wrapped _ _ => some .stream
   | _ => none
 
 /-- the elements an iteration over the sequence yields (`mut_seq_into_iter`, `multi!`'s
@@ -357,7 +380,14 @@ def elems? : Val → Option (List Val)
   | vec ns => some (ns.map int)
   | bytes bs => some (bs.map fun b => int (Int.ofNat b))
   | stream xs => some xs
+  | wrapped items pos => some (wIter items pos)
   | _ => none
+
+/-- the elements `Stream::force` returns (`multi!`, `reversed`, `unsnoc`); same as iteration for
+every non-stream kind -/
+def forced? : Val → Option (List Val)
+  | wrapped items pos => some (wForce items pos)
+  | v => v.elems?
 
 /-- `mut_obj_into_iter`: non-sequences raise a type error -/
 def iter (v : Val) : Out (List Val) :=
@@ -381,13 +411,19 @@ open Val
 
 /-- `multi!(v, expr)`: run `expr` on the element vector, wrap with the kind rule -/
 def multi (s : Val) (g : List Val → Out (List Val)) : Out Val :=
-  match s.kind?, s.elems? with
+  match s.kind?, s.forced? with
   | some k, some xs => (g xs).map (pack (kindRule k))
   | _, _ => .throw
 
 /-- `multimulti!(v, expr, multi_vec_map)`: every group is wrapped with the kind rule -/
 def multimulti (s : Val) (g : List Val → Out (List (List Val))) : Out Val :=
   match s.kind?, s.elems? with
+  | some k, some xs => (g xs).map fun groups => list (groups.map (pack (kindRule k)))
+  | _, _ => .throw
+
+/-- `multi_suffixes` (lib.rs:3109) reverses first (`multi_reverse`, which forces a stream) -/
+def multimultiForced (s : Val) (g : List Val → Out (List (List Val))) : Out Val :=
+  match s.kind?, s.forced? with
   | some k, some xs => (g xs).map fun groups => list (groups.map (pack (kindRule k)))
   | _, _ => .throw
 
@@ -577,7 +613,7 @@ def call (L : Lib) (name : String) (args : List Arg) : Out Val :=
   | "window", [.v s, .v (.int n)] =>
     andThen (usizeOf n) fun n => if n = 0 then .throw else multimulti s fun xs => .ok (L.windowed xs n)
   | "prefixes", [.v s] => multimulti s fun xs => .ok (L.prefixes xs)
-  | "suffixes", [.v s] => multimulti s fun xs => .ok (L.suffixes xs)
+  | "suffixes", [.v s] => multimultiForced s fun xs => .ok (L.suffixes xs)
   | "frequencies", [.v s] =>
     andThen s.iter fun xs => (L.frequencies xs).map fun m =>
       .dict (m.map (·.1)) (m.map fun e => natVal e.2) [.int 0]
@@ -586,6 +622,7 @@ def call (L : Lib) (name : String) (args : List Arg) : Out Val :=
   | "drop", [.v s, .f f] =>
     (match s with
      | .stream xs => (L.dropWhile f.pred xs).map .stream
+     | .wrapped items pos => (L.dropWhile f.pred (wIter items pos)).map .stream   -- peek / next from `pos`
      | s => multi s (L.dropWhile f.pred))
   -- one-line registrations over `mut_obj_into_iter`
   | "map", [.v s, .f f] => andThen s.iter fun xs => (L.map f.call1 xs).map .list
@@ -706,5 +743,31 @@ def call (L : Lib) (name : String) (args : List Arg) : Out Val :=
   | "words", [.v (.str s)] => .ok (.list ((L.words s).map .str))
   | "lines", [.v (.str s)] => .ok (.list ((L.lines s).map .str))
   | _, _ => .throw
+
+/-! ## chained infix forms: `a zip b zip c with f`
+`ChainEvaluator` asks the pending function `f.try_chain(g)` when the next operator `g` of the same
+precedence arrives: the self-chaining combinators answer with themselves, so the operand is added
+to ONE n-ary call; otherwise the pending call is made and its result becomes the left operand. -/
+
+/-- `try_chain` of `Zip` (lib.rs:1106), `ZipLongest` (lib.rs:1179), `CartesianProduct` (lib.rs:1326) -/
+def chains (f g : String) : Bool :=
+  match f, g with
+  | "zip", "zip" => true
+  | "zip", "with" => true
+  | "ziplongest", "ziplongest" => true
+  | "ziplongest", "with" => true
+  | "**", "**" => true
+  | _, _ => false
+
+def evalChainGo (L : Lib) : String → List Arg → List (String × Arg) → Out Val
+  | f, args, [] => call L f args
+  | f, args, (g, x) :: rest =>
+    if chains f g then evalChainGo L f (args ++ [x]) rest
+    else andThen (call L f args) fun r => evalChainGo L g [.v r, x] rest
+
+/-- `x0 g1 x1 g2 x2 …`, all operators of one precedence, left to right -/
+def evalChain (L : Lib) (x0 : Arg) : List (String × Arg) → Out Val
+  | [] => .throw
+  | (g, x1) :: rest => evalChainGo L g [x0, x1] rest
 
 end Noulith.SeqLib
